@@ -94,6 +94,11 @@ def to_priority_value(domain, choice, v):
     return PriorityValue(**{choice: to_py(domain, v)})
 
 
+def make_array(domain, choice, slots16):
+    """16 abstract slot contents -> a new PriorityArray object holding them"""
+    return PriorityArray([to_priority_value(domain, choice, v) for v in slots16])
+
+
 def invalid_py(tagged):
     """(datatype tag, content) of cmdref.INVALID -> what a caller of the property interface would hand over"""
     tag, content = tagged
